@@ -148,7 +148,7 @@ fn base_ads(r: &mut Rng) -> AdScript {
         discover: (Ok(targets), short_lat(r)),
         filter: (FilterMode::Identity, short_lat(r)),
         select: (SelectMode::First, short_lat(r)),
-        loc_table, loc_default: "en_us".into(), loc_fail: false,
+        loc_table, loc_default: "en_us".into(), loc_fail: false, loc_lat: 0,
     }
 }
 
@@ -197,7 +197,7 @@ fn build(fam: &'static str, r: &mut Rng, p: &Params, ads: AdScript, secret: Opti
         acts.push(Act::Eof);
     }
     Scenario { family: fam, client_addr: client, secret, max_len: 10_000, expiry: 21_600, ads, acts, clock: FIXED_NOW,
-               max_read_chunk: 0, write_script: vec![], tear_at: None, glue: false, note }
+               max_read_chunk: 0, write_script: vec![], tear_at: None, wsched: vec![], glue: false, note }
 }
 
 // ------------------------------------------------------------------ printing
@@ -307,11 +307,14 @@ fn print_case(sc: &Scenario, rec: &RunRecord, pubkey: &[u8]) {
         "{{| cc_cfg := {}; cc_rsa := {}; cc_psess := {}; cc_pauth := {}; cc_sauth := {}; cc_ssess := {}; \
          cc_status := {}; cc_auth := {}; cc_discover := {}; cc_filter := {}; cc_select := {}; cc_loc := {}; \
          cc_token := {}; cc_uuid := {}; cc_kaids := {}; cc_now := {}; cc_inbox := {}; cc_sent := {}; cc_calls := {}; \
-         cc_outcome := {}; cc_end := {}; cc_flags := {}; cc_maxalloc := {}; cc_biggest_in := {}; cc_order := {}; cc_note := \"{}\"%string; cc_segs := {}; cc_eof := {}; cc_writes := {} |}}",
+         cc_outcome := {}; cc_end := {}; cc_flags := {}; cc_maxalloc := {}; cc_biggest_in := {}; cc_order := {}; cc_note := \"{}\"%string; cc_segs := {}; cc_eof := {}; cc_writes := {}; cc_wsched := {}; cc_loclat := {}; cc_wire := {} |}}",
         cfg, rsa, g_list(&psess), g_list(&pauth), g_list(&sauth), g_list(&ssess),
         res("status"), res("auth"), res("discover"), res("filter"), res("select"), loc,
         g_hex(&rec.token), g_hex(&uuid), kaids, sc.clock, inbox, sent, calls, rec.outcome, rec.end_ms, flags, rec.max_alloc, biggest_in, order, sc.note.replace('"', "'").replace('\\', "/"), segs, rec.eof_at.map(|t| t as i64).unwrap_or(-1),
-        g_list(&rec.write_calls.iter().map(|(_, o, a)| format!("({}, {})", o, g_z(*a))).collect::<Vec<_>>())));
+        g_list(&rec.write_calls.iter().map(|(_, o, a)| format!("({}, {})", o, g_z(*a))).collect::<Vec<_>>()),
+        g_list(&sc.wsched.iter().map(|(t, c)| format!("({}, {})", t, g_opt(c.map(|n| n.to_string())))).collect::<Vec<_>>()),
+        sc.ads.loc_lat,
+        g_list(&rec.wire_out.iter().map(|(t, b)| format!("({}, {})", t, b.len())).collect::<Vec<_>>())));
 }
 
 /// payload of the StoreCookie (configuration phase, id 0x0A) with this key, if the server sent one
@@ -356,6 +359,14 @@ fn main() {
     let mut hist: HashMap<String, usize> = HashMap::new();
     let mut run = |sc: Scenario, r: &mut Rng| {
         let rec = run_scenario(&sc, r);
+        // a keep-alive tick that is overdue (the handler was blocked in a write) at the very instant a raced adapter call
+        // is started: tokio's unbiased select! polls the two branches in random order, the run is not determined by its
+        // inputs.  Visible as a write attempted at the instant a raced call was started; such runs are not printed.
+        if sc.family == "WCAP" {
+            let tie = rec.calls.iter().any(|(t, c)| (c.starts_with("CDisco") || c.starts_with("(CFilt") || c.starts_with("(CSele"))
+                && rec.write_calls.iter().any(|w| w.0 == *t));
+            if tie { *hist.entry("WCAP:tie-not-printed".to_string()).or_default() += 1; return; }
+        }
         *hist.entry(format!("{}:{}", sc.family, rec.outcome)).or_default() += 1;
         let mut sc = sc;
         // a case run under the REAL wall clock (clock 0): the model is given the time at which the run ended
@@ -911,6 +922,101 @@ fn main() {
                     let ci_act = sc.acts[ci].clone();
                     sc.acts.splice(ack + 1..ci + 1, vec![Act::SleepUntil(t0), ci_act]);
                     sc.tear_at = Some(2 * PMS);
+                    run(sc, &mut r);
+                }
+            }
+            "WCAP" => {
+                // M3: a transport whose free room follows a schedule, a localization adapter that may suspend.
+                // Instants: ticks at multiples of 16000, schedule instants = 0 mod 4, raced completions = 1 mod 4,
+                // client echoes = 3 mod 4 after a delivery (no ties for the unbiased select! of `listen`).
+                const PMS: u64 = 16_000;
+                for i in 0..(48 * scale) {
+                    let variant = i % 8; let i = i as u64;
+                    let round = i / 8;
+                    let mut p = base_params(&mut r, Intent::Login);
+                    p.ka = KaPolicy::Prompt(51 + 4 * r.below(50));
+                    let mut ads = base_ads(&mut r);
+                    if let Ok(d) = &mut ads.discover.0 { if d.is_empty() || variant != 6 { if d.is_empty() { d.push(rnd_target(&mut r, 0)); } } }
+                    let t0 = 3001u64;
+                    ads.discover.1 = 200 + 4 * r.below(30); ads.filter.1 = 100 + 4 * r.below(30); ads.select.1 = 52 + 4 * r.below(30);
+                    // the raced call that is running at instant `at` completes at `at + 1 + 4 m`
+                    let span = |ads: &mut AdScript, which: u64, at: u64, m: u64| {
+                        let h = at + 1 + 4 * m;
+                        match which {
+                            0 => ads.discover.1 = h - t0,
+                            1 => ads.filter.1 = h - t0 - ads.discover.1,
+                            _ => ads.select.1 = h - t0 - ads.discover.1 - ads.filter.1,
+                        }
+                    };
+                    let which = ((i / 8) % 3) as u64;
+                    let mut wsched: Vec<(u64, Option<usize>)> = vec![];
+                    let mut ci_at = t0;
+                    let note;
+                    match variant {
+                        0 => {   // the Keep Alive of the first tick is accepted for k bytes only; room returns 4 g ms later
+                            let (mut k, g, mut m) = (r.below(12) as usize, 1 + r.below(12), r.below(14));
+                            // the boundary cases first: nothing / all but one byte accepted, the race ending inside the wait
+                            match round % 6 { 0 => { k = 0; m = r.below(g); } 2 => { k = 9; m = r.below(g); } 4 => { k = 0; } _ => {} }
+                            span(&mut ads, which, PMS, m);
+                            wsched = vec![(PMS - 12, Some(k)), (PMS + 4 * g, None)];
+                            note = format!("keep-alive torn at {} of 10, room back after {} ms, race {} ends after {} ms", k, 4 * g, which, 1 + 4 * m);
+                        }
+                        1 | 5 => {   // silent client: the timeout Disconnect of the second tick is torn; localize may suspend
+                            p.ka = KaPolicy::Never;
+                            let (mut k, g, mut m) = (r.below(40) as usize, 1 + r.below(12), r.below(14));
+                            ads.loc_lat = *r.pick(&[0u64, 0, 8, 24, 60]);
+                            // the race ending while localize() is suspended / while nothing of the Disconnect is accepted yet
+                            match round % 6 { 0 => { ads.loc_lat = 60; m = r.below(14); } 1 => { k = 0; m = r.below(g); } 3 => { ads.loc_lat = 24; m = r.below(5); k = 0; } _ => {} }
+                            span(&mut ads, which, 2 * PMS, m);
+                            if variant == 5 { match which { 0 => ads.discover.0 = Err(()), 1 => ads.filter.0 = FilterMode::Fail, _ => ads.select.0 = SelectMode::Fail } }
+                            wsched = vec![(2 * PMS - 12, Some(k)), (2 * PMS + ads.loc_lat + 4 * g, None)];
+                            note = format!("timeout disconnect torn at {}, localize {} ms, room back {} ms after it, race {} ends after {} ms{}", k, ads.loc_lat, 4 * g, which, 1 + 4 * m,
+                                           if variant == 5 { " with an adapter failure" } else { "" });
+                        }
+                        2 => {   // trickle: a few bytes every 4 ms from just before the first tick, for 60 steps
+                            let m = r.below(40);
+                            span(&mut ads, which, PMS, m);
+                            for j in 0..60u64 { wsched.push((PMS - 12 + 4 * j, Some(*r.pick(&[0usize, 0, 1, 2, 3, 5, 9, 40])))); }
+                            wsched.push((PMS - 12 + 240, None));
+                            note = format!("trickle, race {} ends after {} ms", which, 1 + 4 * m);
+                        }
+                        3 => {   // the transport never takes another byte after k: the handler hangs in a write
+                            let (k, m) = (r.below(10) as usize, r.below(14));   // inside the Keep Alive: what a frame the client never sees in full contains (a fresh session id) cannot be observed
+                            span(&mut ads, which, PMS, m);
+                            wsched = vec![(PMS - 12, Some(k))];
+                            note = format!("transport stalls for good after {} bytes, race {} ends after {} ms", k, which, 1 + 4 * m);
+                        }
+                        4 => {   // blocked while waiting for the client information (no race): the write just waits
+                            ci_at = PMS + 1 + 4 * (250 + r.below(5000));
+                            let (k, g) = (r.below(12) as usize, 1 + r.below(6000));
+                            wsched = vec![(PMS - 12, Some(k)), (PMS + 4 * g, None)];
+                            note = format!("blocked in the client-information wait: {} bytes, room back after {} ms, information at {}", k, 4 * g, ci_at);
+                        }
+                        6 => {   // no target: the no-target Disconnect under a trickle, localize suspends
+                            ads.discover.0 = Ok(vec![]);
+                            ads.loc_lat = *r.pick(&[0u64, 8, 24]);
+                            for j in 0..40u64 { wsched.push((t0 - 1 + 4 * j, Some(*r.pick(&[0usize, 1, 2, 7, 30])))); }
+                            wsched.push((t0 - 1 + 160, None));
+                            note = format!("no target under a trickle, localize {} ms", ads.loc_lat);
+                        }
+                        _ => {   // random schedule over three periods, random client
+                            p.ka = match r.below(4) { 0 => KaPolicy::Never, 1 => KaPolicy::StopAfter(1, 51 + 4 * r.below(20)), _ => KaPolicy::Prompt(51 + 4 * r.below(2000)) };
+                            ads.loc_lat = *r.pick(&[0u64, 0, 8, 24]);
+                            let at = *r.pick(&[PMS, 2 * PMS, 3 * PMS]);
+                            span(&mut ads, which, at, r.below(60));
+                            let mut t = PMS - 12;
+                            for _ in 0..(5 + r.below(40)) { wsched.push((t, *r.pick(&[Some(0usize), Some(0), Some(1), Some(3), Some(8), Some(13), Some(50), None]))); let big = r.chance(1, 6); t += 4 * (1 + r.below(if big { 4000 } else { 6 })); }
+                            wsched.push((t, None));
+                            note = format!("random schedule of {} instants", wsched.len());
+                        }
+                    }
+                    let cl = rnd_sa(&mut r);
+                    let mut sc = build("WCAP", &mut r, &p, ads.clone(), None, cl, format!("{} #{}", note, i));
+                    let ack = sc.acts.iter().position(|a| matches!(a, Act::Frame { id: 3, .. })).unwrap();
+                    let ci = sc.acts.iter().position(|a| matches!(a, Act::Frame { id: 0, body } if body.len() > 5 && sc.acts.iter().position(|x| std::ptr::eq(x, a)).unwrap() > ack)).unwrap();
+                    let ci_act = sc.acts[ci].clone();
+                    sc.acts.splice(ack + 1..ci + 1, vec![Act::SleepUntil(ci_at), ci_act]);
+                    sc.wsched = wsched;
                     run(sc, &mut r);
                 }
             }
